@@ -28,6 +28,7 @@ var eventKinds = []string{"pong", "ack", "new-session", "bad-msg", "state-info",
 	"bad-salt-unknown", "bad-salt-answered", "rotate",
 	"result-unknown", "result-again", "error-unknown", "update", "updates-too-long", "unknown-ctor", "truncated", "empty-body", "empty-container", "nested-container", "raw-soup", "gzip-damaged", "close",
 	"schema-object", "schema-object", "schema-object",
+	"envelope:badlen", "envelope:evenid", "envelope:flip", "envelope:garbage", "envelope:truncate", "envelope:append", "envelope:rekey", "envelope:reflect",
 	"cut:result-unknown", "cut:pong", "cut:ack", "cut:bad-msg", "cut:state-info", "cut:update", "cut:nested-container", "cut:future-salts"}
 
 var wellFormedService = map[string]bool{"pong": true, "ack": true, "new-session": true, "update": true, "updates-too-long": true, "state-info": true, "all-info": true,
@@ -282,7 +283,7 @@ func genEvents(t *rapid.T) []Event {
 			ev.Cut = rapid.IntRange(1, 6).Draw(t, "cut")
 			ev.Gzip = false
 		}
-		if ev.Kind == "empty-body" || ev.Kind == "truncated" || ev.Kind == "raw-soup" || ev.Kind == "gzip-damaged" {
+		if ev.Kind == "empty-body" || ev.Kind == "truncated" || ev.Kind == "raw-soup" || ev.Kind == "gzip-damaged" || strings.HasPrefix(ev.Kind, "envelope:") {
 			ev.Gzip = false // gzip_packed needs an object to pack
 		}
 		out = append(out, ev)
@@ -366,7 +367,15 @@ func TestC16(t *testing.T) {
 				continue
 			}
 			seenKind[k] = true
-			for _, variant := range []Event{{}, {Gzip: true}, {InContainer: true}, {ContentRelated: true}, {Split: 3}, {Split: 37}} {
+			variants := []Event{{}, {Gzip: true}, {InContainer: true}, {ContentRelated: true}, {Split: 3}, {Split: 37}}
+			if k == "envelope:badlen" {
+				// every declared length of the list, with the msg_key over everything and over the header only
+				variants = nil
+				for a := 0; a < 10; a++ {
+					variants = append(variants, Event{Arg: int64(a)<<8 | 0<<2}, Event{Arg: int64(a)<<8 | 1<<2})
+				}
+			}
+			for _, variant := range variants {
 				idx++
 				if idx%nsh != run.Shard {
 					continue
@@ -377,8 +386,11 @@ func TestC16(t *testing.T) {
 					ev.Gzip = false
 					ev.Cut = 1 + (idx % 5) // together with the four wrappings every short prefix occurs
 				}
-				if k == "empty-body" || k == "truncated" || k == "raw-soup" || k == "gzip-damaged" {
+				if k == "empty-body" || k == "truncated" || k == "raw-soup" || k == "gzip-damaged" || strings.HasPrefix(k, "envelope:") {
 					ev.Gzip = false
+				}
+				if k == "envelope:badlen" {
+					ev.Arg = variant.Arg
 				}
 				if k == "raw-soup" {
 					ev.Body = hx.Det(uint64(idx), 16)
